@@ -232,10 +232,12 @@ func runBatch(ctx context.Context, node Node, shared *SharedStore) (Action, erro
 }
 
 func runBatchSequential(ctx context.Context, node Node, items []Result, results []Result, errorHandling string) {
+	stoppedAt := len(items)
 	for i, item := range items {
 		if ctx.Err() != nil {
 			results[i] = NewErrorResult(fmt.Errorf("context cancelled"))
 			if errorHandling == "stop" {
+				stoppedAt = i
 				break
 			}
 			continue
@@ -245,6 +247,7 @@ func runBatchSequential(ctx context.Context, node Node, items []Result, results 
 		if err != nil {
 			results[i] = NewErrorResult(err)
 			if errorHandling == "stop" {
+				stoppedAt = i
 				break
 			}
 		} else {
@@ -254,6 +257,11 @@ func runBatchSequential(ctx context.Context, node Node, items []Result, results 
 				results[i] = NewResult(execResult)
 			}
 		}
+	}
+
+	// Items that were never processed must not look like successes
+	for i := stoppedAt + 1; i < len(items); i++ {
+		results[i] = NewErrorResult(fmt.Errorf("batch stopped due to error"))
 	}
 }
 
